@@ -76,83 +76,91 @@ func C05(c *Ctx) {
 
 	m := c.Contracts()
 	setFSM := c.fn("R05.1", tmPrefix+"setFSM")
-	fin := c.fn("R05.1", "internal/executor/contracts.isMultiTxFinished")
-	if setFSM == nil || fin == nil {
+	fin := c.P.Fn("internal/executor/contracts.isMultiTxFinished")
+	if setFSM == nil {
 		return
 	}
-	// R05.1 (a) setFSM on GlobalState behind isMultiTxFinished
-	n := 0
-	for _, fn := range m.funcs {
-		var gs []core.GuardSite
-		for _, call := range core.Calls(fn) {
-			if cl, ok := call.(*ssa.Call); ok && core.StaticCallee(call) == fin {
-				gs = append(gs, core.GuardSite{Call: cl, Conv: core.ConvBoolTrue, Idx: -1})
-			}
+	func() {
+		if fin == nil {
+			// the completeness predicate inlined into its caller: `finished := true; count := 0; for .. { if res != status {
+			// finished = false; break }; count++ }; if finished && count == txInfo.ChildTxCount { .. }`
+			c.c05InlinedCompleteness(m, setFSM)
+			return
 		}
-		es := core.EdgeSet{}
-		for b, mm := range core.SuccessEdges(fn, gs) {
-			for i := range mm {
-				es.Add(b, i)
-			}
-		}
-		isGlobalFSM := func(in ssa.Instruction) bool {
-			call, ok := in.(ssa.CallInstruction)
-			if !ok || core.StaticCallee(call) != setFSM {
-				return false
-			}
-			_, f, _, ok2 := core.FieldOf(call.Common().Args[1])
-			return ok2 && f == "GlobalState"
-		}
-		if len(sites(fn, isGlobalFSM)) == 0 {
-			continue
-		}
-		n += c.behindEdges("R05.1", shortFn(fn), fn, es, isGlobalFSM, "isMultiTxFinished(..) == true", "global status transition")
-	}
-	r.Floor("R05.1", "global status transitions through the FSM", n, 1)
-	// (b) no direct SUCCESS store
-	nst := 0
-	for _, fn := range c.P.ModuleFuncs(true) {
-		for _, in := range sites(fn, storesToField("TransactionInfo", "GlobalState")) {
-			nst++
-			st := in.(*ssa.Store)
-			name := enumName(st.Val)
-			if name == "TransactionStatus_SUCCESS" {
-				r.Bad("R05.1", shortFn(fn)+": GlobalState = SUCCESS", c.P.Pos(in.Pos()), "the global state of a one-to-many transaction is set to SUCCESS directly, bypassing the completeness check")
-			}
-		}
-	}
-	r.Floor("R05.1", "direct GlobalState stores inspected", nst, 3)
-	// (c) isMultiTxFinished
-	okFin := true
-	why := ""
-	for _, ret := range core.Returns(fin) {
-		for _, o := range core.RetOrigins(ret.Results[0]) {
-			if cst, ok := o.V.(*ssa.Const); ok && cst.Value != nil {
-				if cst.Value.String() == "true" {
-					okFin, why = false, "returns the constant true"
+		// R05.1 (a) setFSM on GlobalState behind isMultiTxFinished
+		n := 0
+		for _, fn := range m.funcs {
+			var gs []core.GuardSite
+			for _, call := range core.Calls(fn) {
+				if cl, ok := call.(*ssa.Call); ok && core.StaticCallee(call) == fin {
+					gs = append(gs, core.GuardSite{Call: cl, Conv: core.ConvBoolTrue, Idx: -1})
 				}
+			}
+			es := core.EdgeSet{}
+			for b, mm := range core.SuccessEdges(fn, gs) {
+				for i := range mm {
+					es.Add(b, i)
+				}
+			}
+			isGlobalFSM := func(in ssa.Instruction) bool {
+				call, ok := in.(ssa.CallInstruction)
+				if !ok || core.StaticCallee(call) != setFSM {
+					return false
+				}
+				_, f, _, ok2 := core.FieldOf(call.Common().Args[1])
+				return ok2 && f == "GlobalState"
+			}
+			if len(sites(fn, isGlobalFSM)) == 0 {
 				continue
 			}
-			bo, ok := o.V.(*ssa.BinOp)
-			if !ok || bo.Op != token.EQL || !(core.Mentions(bo.X, fieldLoad("TransactionInfo", "ChildTxCount")) || core.Mentions(bo.Y, fieldLoad("TransactionInfo", "ChildTxCount"))) {
-				okFin, why = false, "a true result is not the comparison of the counted children with ChildTxCount"
+			n += c.behindEdges("R05.1", shortFn(fn), fn, es, isGlobalFSM, "isMultiTxFinished(..) == true", "global status transition")
+		}
+		r.Floor("R05.1", "global status transitions through the FSM", n, 1)
+		// (b) no direct SUCCESS store
+		nst := 0
+		for _, fn := range c.P.ModuleFuncs(true) {
+			for _, in := range sites(fn, storesToField("TransactionInfo", "GlobalState")) {
+				nst++
+				st := in.(*ssa.Store)
+				name := enumName(st.Val)
+				if name == "TransactionStatus_SUCCESS" {
+					r.Bad("R05.1", shortFn(fn)+": GlobalState = SUCCESS", c.P.Pos(in.Pos()), "the global state of a one-to-many transaction is set to SUCCESS directly, bypassing the completeness check")
+				}
 			}
 		}
-	}
-	// the early false on a differing child
-	diff := condEdges(fin, func(f core.Fact, ifi *ssa.If) (bool, int) {
-		if f.Kind == core.FCmp && (f.Op == token.NEQ || f.Op == token.EQL) {
-			p := ssa.Value(fin.Params[0])
-			if core.Strip(f.Subject) == p || core.Strip(f.Other) == p {
-				return true, 0
+		r.Floor("R05.1", "direct GlobalState stores inspected", nst, 3)
+		// (c) isMultiTxFinished
+		okFin := true
+		why := ""
+		for _, ret := range core.Returns(fin) {
+			for _, o := range core.RetOrigins(ret.Results[0]) {
+				if cst, ok := o.V.(*ssa.Const); ok && cst.Value != nil {
+					if cst.Value.String() == "true" {
+						okFin, why = false, "returns the constant true"
+					}
+					continue
+				}
+				bo, ok := o.V.(*ssa.BinOp)
+				if !ok || bo.Op != token.EQL || !(core.Mentions(bo.X, fieldLoad("TransactionInfo", "ChildTxCount")) || core.Mentions(bo.Y, fieldLoad("TransactionInfo", "ChildTxCount"))) {
+					okFin, why = false, "a true result is not the comparison of the counted children with ChildTxCount"
+				}
 			}
 		}
-		return false, 0
-	})
-	if diff.Len() == 0 {
-		okFin, why = false, "children are not compared with the reported child status"
-	}
-	r.Check(okFin, "R05.1", "isMultiTxFinished: true only when all declared children agree", c.P.Pos(fin.Pos()), "true result is count == ChildTxCount; differing child returns false", "completeness test weakened: "+why)
+		// the early false on a differing child
+		diff := condEdges(fin, func(f core.Fact, ifi *ssa.If) (bool, int) {
+			if f.Kind == core.FCmp && (f.Op == token.NEQ || f.Op == token.EQL) {
+				p := ssa.Value(fin.Params[0])
+				if core.Strip(f.Subject) == p || core.Strip(f.Other) == p {
+					return true, 0
+				}
+			}
+			return false, 0
+		})
+		if diff.Len() == 0 {
+			okFin, why = false, "children are not compared with the reported child status"
+		}
+		r.Check(okFin, "R05.1", "isMultiTxFinished: true only when all declared children agree", c.P.Pos(fin.Pos()), "true result is count == ChildTxCount; differing child returns false", "completeness test weakened: "+why)
+	}()
 
 	// R05.2 loops
 	type loopSite struct {
@@ -618,4 +626,92 @@ func (c *Ctx) c05Membership() {
 		r.Check(ok, "R05.9", key, c.P.Pos(e.Site.Pos()), "the failure flag depends on Group.Keys / Vals", why+": a request that carries a group descriptor it is not listed in (faulty or malicious source chain) is begun as a child; two such children complete a group of two declared ones - the global status becomes SUCCESS while a declared child never began")
 	}
 	r.Floor("R05.9", "BeginMultiTXs cross-invokes", n, 1)
+}
+
+// c05InlinedCompleteness: R05.1 when isMultiTxFinished has been inlined. The positive edge is the true edge of a
+// comparison `counter == ChildTxCount` that is itself reached only over the true edge of a boolean flag which a
+// differing child sets to false (a phi with a constant-false operand); the counter is a loop-carried +1 counter.
+func (c *Ctx) c05InlinedCompleteness(m *contractsModel, setFSM *ssa.Function) {
+	r := c.R
+	n := 0
+	for _, fn := range m.funcs {
+		isGlobalFSM := func(in ssa.Instruction) bool {
+			call, ok := in.(ssa.CallInstruction)
+			if !ok || core.StaticCallee(call) != setFSM {
+				return false
+			}
+			_, f, _, ok2 := core.FieldOf(call.Common().Args[1])
+			return ok2 && f == "GlobalState"
+		}
+		if len(sites(fn, isGlobalFSM)) == 0 {
+			continue
+		}
+		es := core.EdgeSet{}
+		for _, b := range fn.Blocks {
+			ifi := core.IfOf(b)
+			if ifi == nil {
+				continue
+			}
+			bo, ok := ifi.Cond.(*ssa.BinOp)
+			if !ok || bo.Op != token.EQL {
+				continue
+			}
+			var counter ssa.Value
+			switch {
+			case core.Mentions(bo.Y, fieldLoad("TransactionInfo", "ChildTxCount")):
+				counter = bo.X
+			case core.Mentions(bo.X, fieldLoad("TransactionInfo", "ChildTxCount")):
+				counter = bo.Y
+			default:
+				continue
+			}
+			// the counter: a phi one of whose operands is itself + 1
+			ph, ok := counter.(*ssa.Phi)
+			if !ok {
+				continue
+			}
+			plusOne := false
+			for _, e := range ph.Edges {
+				if inc, ok := e.(*ssa.BinOp); ok && inc.Op == token.ADD {
+					if one, ok := core.ConstInt(inc.Y); ok && one == 1 {
+						plusOne = true
+					}
+				}
+			}
+			if !plusOne || len(b.Preds) != 1 {
+				continue
+			}
+			// reached only over the true edge of the flag
+			pa := b.Preds[0]
+			pif := core.IfOf(pa)
+			if pif == nil || len(pa.Succs) != 2 || pa.Succs[0] != b {
+				continue
+			}
+			flag, ok := pif.Cond.(*ssa.Phi)
+			if !ok {
+				continue
+			}
+			hasFalse := false
+			for _, e := range flag.Edges {
+				if k, ok := e.(*ssa.Const); ok && k.Value != nil && k.Value.ExactString() == "false" {
+					hasFalse = true
+				}
+			}
+			if hasFalse {
+				es.Add(b, 0)
+			}
+		}
+		n += c.behindEdges("R05.1", shortFn(fn), fn, es, isGlobalFSM, "all children agree and counted == ChildTxCount (inlined completeness test)", "global status transition")
+	}
+	r.Floor("R05.1", "global status transitions through the FSM", n, 1)
+	nst := 0
+	for _, fn := range c.P.ModuleFuncs(true) {
+		for _, in := range sites(fn, storesToField("TransactionInfo", "GlobalState")) {
+			nst++
+			if enumName(in.(*ssa.Store).Val) == "TransactionStatus_SUCCESS" {
+				r.Bad("R05.1", shortFn(fn)+": GlobalState = SUCCESS", c.P.Pos(in.Pos()), "the global state of a one-to-many transaction is set to SUCCESS directly, bypassing the completeness check")
+			}
+		}
+	}
+	r.Floor("R05.1", "direct GlobalState stores inspected", nst, 3)
 }
